@@ -308,9 +308,25 @@ def run(ctx):
                 flows = all(tr.sources(s["r"]["ops"][0]) == {("call", bb)} for _, _, s in errs) and errs
                 kfields = {troles.get(x, x) for x in kfields}
                 ffields = {troles.get(x, x) for x in ffields}
-                ok = kfields == {"key"} and ffields == {"fields"} and flows and all(cfg.postdominates(e[0], 0) for e in errs)
+                # the constant name (`<unknown>`) stands in only when no key was captured: the block that supplies it may depend on the
+                # Option's discriminant, not on a predicate over the key's text (a filter would hide the names of some fields)
+                filt = []
+                if kconst:
+                    trk = Tracer(tb, through_calls=True, through_agg=True)
+                    for bb_, t_ in tb.calls():
+                        if tystr(tb.local_ty(place_local(t_["dest"]))) != "bool" or t_["call"]["name"] in ("is_some", "is_none") or not t_["args"]:
+                            continue
+                        from_key = False
+                        for a_ in t_["args"]:
+                            for s_ in trk.sources(a_):
+                                if src_root(s_) == ("arg", 1) and ({troles.get(x_, x_) for x_ in src_fields(s_)} & {"key"}):
+                                    from_key = True
+                        if from_key:
+                            filt.append(t_["call"]["name"])
+                ok = kfields == {"key"} and ffields == {"fields"} and flows and all(cfg.postdominates(e[0], 0) for e in errs) and not filt
                 ctx.check(ok, "R5.3", tb.loc(t["ln"]), "terminal|unknown_field-args",
-                          f"terminal error must be Error::unknown_field(<recorded key>, <declared fields>) on every path; key derives from {sorted(kfields)} / consts {len(kconst)}, fields from {sorted(ffields)}",
+                          f"terminal error must be Error::unknown_field(<recorded key>, <declared fields>) on every path; key derives from {sorted(kfields)} / consts {len(kconst)}, fields from {sorted(ffields)}"
+                          + (f"; the placeholder name is chosen by a predicate over the key ({sorted(set(filt))}): some rejected fields would not be named" if filt else ""),
                           instance="terminal: Err(unknown_field(self.key, self.fields)) post-dominates entry")
             else:
                 ctx.violation("R5.3", tb.loc(), "terminal|unknown_field", f"expected exactly one Error::unknown_field construction, found {len(uf)}")
